@@ -44,7 +44,7 @@ theorem prepareRow_eq (c : ℕ) (rw : Row) : prepareRow c rw = { total := workin
   unfold prepareRow working E
   split <;> rfl
 
-theorem factor_toRat (p : Pct) : (factor p).toRat = 1 + p.amount.toRat := by
+theorem factor_toRat_sm (p : Pct) : (factor p).toRat = 1 + p.amount.toRat := by
   have h := p10q_ne p.amount.exp
   unfold factor Amount.toRat
   push_cast
@@ -62,7 +62,7 @@ theorem remove_spec (t : Amount) (p : Pct) :
   simp only [exact_div]
   by_cases hne : (factor p).value = 0
   · have hq : (factor p).toRat = 0 := by unfold Amount.toRat; rw [hne]; simp
-    rw [← factor_toRat, hq]
+    rw [← factor_toRat_sm, hq]
     unfold Amount.divX
     simp only [hne, lt_irrefl, if_false, neg_zero, rha_zero]
     congr 1
@@ -70,7 +70,7 @@ theorem remove_spec (t : Amount) (p : Pct) :
     simp only [div_zero, zero_mul]
     exact (roundHalfAway_int 0).symm
   · have hv := divX_spec t (factor p) hne
-    rw [factor_toRat] at hv
+    rw [factor_toRat_sm] at hv
     rw [← hv]
     cases h : t.divX (factor p)
     have he : (t.divX (factor p)).exp = t.exp := divX_exp t (factor p)
@@ -206,7 +206,7 @@ def GroupFacts (r : Rule) (c : ℕ) (ws : List Contribution) (cat : String) (rt 
   rt.base.exp = workExp c (groupOf ws cat (keyOfRate rt)) ∧
   (r = .currency → rt.base.exp = c)
 
-theorem base_step_exp (r : Rule) (c : ℕ) (base t : Amount) (hb : r = .currency → base.exp = c) :
+theorem base_step_exp_rule (r : Rule) (c : ℕ) (base t : Amount) (hb : r = .currency → base.exp = c) :
     (add exactOps (mrp r base t) t).exp = max base.exp (contributed r c t).exp := by
   cases r with
   | currency =>
@@ -227,7 +227,7 @@ theorem GroupFacts.step (r : Rule) (c : ℕ) (ws : List Contribution) (cat : Str
   · rw [hkey, groupOf_append, if_pos hk, baseQ_append, ← h1, hw, ← contrib_eq]
     exact b1
   · rw [hkey, groupOf_append, if_pos hk, workExp_append, ← h2, hw]
-    exact base_step_exp r c rt.base t h3
+    exact base_step_exp_rule r c rt.base t h3
 
 theorem GroupFacts.skip (r : Rule) (c : ℕ) (ws : List Contribution) (cat : String) (rt : RateTotal)
     (w : Contribution) (hk : ¬ (w.cat = cat ∧ w.key = keyOfRate rt)) (h : GroupFacts r c ws cat rt) :
@@ -249,7 +249,7 @@ theorem GroupFacts.new (r : Rule) (c : ℕ) (ws : List Contribution) (cb : Combo
   refine ⟨?_, ?_, b2⟩
   · rw [b1, contrib_eq]
     simp [baseQ, Amount.toRat]
-  · rw [base_step_exp r c ⟨0, c⟩ t (fun _ => rfl)]
+  · rw [base_step_exp_rule r c ⟨0, c⟩ t (fun _ => rfl)]
     simp [workExp]
 
 /-- the keys of a rate list are unambiguous -/
